@@ -183,7 +183,13 @@ impl Check for C10 {
 			});
 			let fcfg = FeedCfg::swarm(&mut run.sub("feedcfg"), 30, j % 3 == 0);
 			let mut fc = FaultCount::new();
-			let cs = feed::candles(&mut run.sub("feed"), 620, &fcfg, &mut fc);
+			// every tenth indicator run: a long one-sided trend with a ripple (same-side / consecutive-bar counters)
+			let cs = if j % 10 == 7 {
+				fc.insert("feed:long_one_sided_trend".into(), 1);
+				feed::trend_ripple(&mut run.sub("feed"), 2500 + (j as usize % 3) * 1500)
+			} else {
+				feed::candles(&mut run.sub("feed"), 620, &fcfg, &mut fc)
+			};
 			Case::Indicator(MCase {
 				sut: info.name.to_string(),
 				params: Params::Unit,
